@@ -139,6 +139,8 @@ def plan_C12(seed, tier):
     # initial store: some roots and states exist
     initial = []
     net = "net1" if "nets" in types else ""
+    if "nets" in types and pick(seed, "netroot", [True, True, False]):
+        initial.append((("nets", "net1"), {"root": True, "states": [s for s in STATE_NAMES if pick(seed, f"ins{s}", [0, 0, 1])]}))
     for vm in vms:
         if pick(seed, f"vmroot{vm}", [True, True, False]):
             initial.append((("vms", vm), {"root": True, "states": [s for s in STATE_NAMES if pick(seed, f"ivs{vm}{s}", [0, 0, 1])]}))
@@ -152,11 +154,13 @@ def plan_C12(seed, tier):
         params = {}
         nkeys = pick(seed, f"nkeys{i}", [1, 1, 2, 3])
         for j in range(nkeys):
-            typ = pick(seed, f"typ{i}/{j}", ["images", "images", "vms"])
+            typ = pick(seed, f"typ{i}/{j}", ["images", "images", "vms", "vms", "nets"] if "nets" in types else ["images", "images", "vms"])
             vm = pick(seed, f"vm{i}/{j}", vms)
             form = pick(seed, f"form{i}/{j}", ["type", "type_vm", "type_img_vm", "plain_vm"])
             state = pick(seed, f"st{i}/{j}", STATE_NAMES + (["root", "boot"] if op not in ("push", "pop") else []) + ["s1", "s2"])
-            if form == "type":
+            if typ == "nets":
+                key = f"{op}_state_nets"
+            elif form == "type":
                 key = f"{op}_state_{typ}"
             elif form == "type_vm":
                 key = f"{op}_state_{typ}_{vm}"
@@ -202,16 +206,19 @@ def plan_C13(seed, tier):
     steps = []
     for i in range(pick(seed, "nsteps", [2, 5, 10, 20, 30])):
         op = pick(seed, f"op{i}", ["show", "show", "get", "get", "get", "set", "set", "unset", "unset",
-                                   "set_root", "unset_root", "check_root", "foreign_set", "lost_write"])
+                                   "set_root", "unset_root", "check_root", "get_root", "foreign_set", "lost_write"])
         st = pick(seed, f"st{i}", states)
         if op in ("foreign_set", "lost_write"):
             h = pick(seed, f"fh{i}", hosts)
             steps.append({"op": op, "pool": [pick(seed, f"fk{i}", ["shared", "swarm"]), list(h)], "state": st})
             continue
         me = pick(seed, f"me{i}", names)
-        if op in ("set_root", "unset_root", "check_root"):
+        if op in ("set_root", "unset_root", "check_root", "get_root"):
             scope = pick(seed, f"rscope{i}", ["own", "shared", "own", "shared", "own shared", "swarm", "own swarm cluster shared"])
-            steps.append({"op": op, "worker": me, "scope": scope, "sources": [], "state": "root"})
+            step = {"op": op, "worker": me, "scope": scope, "sources": [], "state": "root"}
+            if op == "get_root" and pick(seed, f"rinv{i}", [0, 0, 1]):
+                step["invalid"] = ["root"]
+            steps.append(step)
             continue
         scope = " ".join(s for s in ["own", "swarm", "cluster", "shared"] if pick(seed, f"sc{i}/{s}", [0, 1, 1]))
         candidates = [":" + SHARED_PATH] + [f"{w}:{SWARM_PATH}" for w in names] + \
